@@ -57,7 +57,7 @@ def run(run, replay=None):
             elif op == 'meta':
                 calls.append((op, {'metadata': rng.choice(METAS)}))
             else:
-                calls.append((op, {'content': rng.choice(DIFFS), 'diff_type': rng.choice([None, 'text'])}))
+                calls.append((op, {'content': rng.choice(DIFFS), 'diff_type': rng.choice([None, 'text', 'binary'])}))
         tr, data, info = run_writer(0, 'utf-8', calls, cat, {'order': False, 'bytes': False, 'read': False, 'scope': False})
         text = data.decode('utf-8')
         toks, exc = lex(text)
